@@ -429,3 +429,84 @@ func GenNestedOps(rng *rand.Rand) *Model {
 	m.Types = append(m.Types, doc)
 	return m
 }
+
+// GenSharedTarget: shapes in which two edges of one operator node end in the same node, or a node is the
+// only way to a terminal type for one operand — what tells "the operand at this position" from "the edge to
+// this node" — and isolated tuple cycles through an operator that reach no terminal type at all.
+func GenSharedTarget(rng *rand.Rand) *Model {
+	m := &Model{Schema: "1.1"}
+	users := []string{"user", "employee", "service", "device"}
+	nu := 2 + rng.Intn(3)
+	for _, u := range users[:nu] {
+		m.Types = append(m.Types, Type{Name: u})
+	}
+	pickUsers := func(k int) []Ref {
+		out := []Ref{}
+		for _, i := range rng.Perm(nu)[:k] {
+			r := Ref{Type: users[i]}
+			if rng.Intn(5) == 0 {
+				r.Wildcard = true
+			}
+			out = append(out, r)
+		}
+		return out
+	}
+	op := func(kind int, a, b *U) *U {
+		switch kind {
+		case 0:
+			return Diff(a, b)
+		case 1:
+			return Inter(a, b)
+		case 2:
+			return Diff(a, Union(b, b))
+		default:
+			return Inter(b, a)
+		}
+	}
+	g := Type{Name: "group"}
+	// member: several terminal types, the relation both a restriction of the base and the other operand refer to
+	g.Rels = append(g.Rels, Rel{Name: "member", Rewrite: This(), Restr: pickUsers(1 + rng.Intn(nu))})
+	g.Rels = append(g.Rels, Rel{Name: "other", Rewrite: This(), Restr: pickUsers(1 + rng.Intn(nu))})
+	for i := 0; i < 1+rng.Intn(3); i++ {
+		// [T, group#member, ...] <op> member   (a base edge and the other operand's edge end in group#member)
+		restr := append(pickUsers(1+rng.Intn(2)), Ref{Type: "group", Rel: "member"})
+		if rng.Intn(2) == 0 {
+			restr = append(restr, Ref{Type: "group", Rel: "other"})
+		}
+		rng.Shuffle(len(restr), func(a, b int) { restr[a], restr[b] = restr[b], restr[a] })
+		second := []string{"member", "member", "other"}[rng.Intn(3)]
+		g.Rels = append(g.Rels, Rel{Name: "x" + string(rune('0'+i)), Rewrite: op(rng.Intn(4), This(), CU(second)), Restr: restr})
+	}
+	m.Types = append(m.Types, g)
+	// TTUs over several parent types against a TTU over one of them
+	fo := Type{Name: "folder", Rels: []Rel{{Name: "viewer", Rewrite: This(), Restr: pickUsers(1 + rng.Intn(nu))}}}
+	or := Type{Name: "org", Rels: []Rel{{Name: "viewer", Rewrite: This(), Restr: pickUsers(1 + rng.Intn(nu))}}}
+	d := Type{Name: "doc"}
+	d.Rels = append(d.Rels, Rel{Name: "parent", Rewrite: This(), Restr: []Ref{{Type: "folder"}, {Type: "org"}}})
+	d.Rels = append(d.Rels, Rel{Name: "owner", Rewrite: This(), Restr: []Ref{{Type: []string{"org", "folder"}[rng.Intn(2)]}}})
+	d.Rels = append(d.Rels, Rel{Name: "can", Rewrite: op(rng.Intn(4), TTU("parent", "viewer"), TTU("owner", "viewer"))})
+	if rng.Intn(2) == 0 {
+		d.Rels = append(d.Rels, Rel{Name: "can2", Rewrite: op(rng.Intn(4), Union(TTU("parent", "viewer"), CU("can")), TTU("owner", "viewer"))})
+	}
+	// isolated tuple cycles through an operator that reach no terminal type (nothing else refers to them)
+	for i := 0; i < rng.Intn(3); i++ {
+		n := "loop" + string(rune('0'+i))
+		switch rng.Intn(4) {
+		case 0:
+			d.Rels = append(d.Rels, Rel{Name: n, Rewrite: Union(This(), TTU("self", n)), Restr: []Ref{{Type: "doc", Rel: n}}})
+		case 1:
+			d.Rels = append(d.Rels, Rel{Name: n, Rewrite: Union(TTU("self", n), This()), Restr: []Ref{{Type: "doc", Rel: n}, {Type: "doc", Rel: n, Cond: "c1"}}})
+		case 2:
+			o := n + "b"
+			d.Rels = append(d.Rels, Rel{Name: n, Rewrite: Union(This(), CU(o)), Restr: []Ref{{Type: "doc", Rel: o}}})
+			d.Rels = append(d.Rels, Rel{Name: o, Rewrite: Union(This(), TTU("self", n)), Restr: []Ref{{Type: "doc", Rel: n}}})
+		default:
+			// the same with one terminal type: accepted, weights Infinite
+			d.Rels = append(d.Rels, Rel{Name: n, Rewrite: Union(This(), TTU("self", n)), Restr: append([]Ref{{Type: "doc", Rel: n}}, pickUsers(1)...)})
+		}
+	}
+	d.Rels = append(d.Rels, Rel{Name: "self", Rewrite: This(), Restr: []Ref{{Type: "doc"}}})
+	m.Types = append(m.Types, fo, or, d)
+	m.Conds = []Cond{{Name: "c1", Params: []Param{{Name: "x", Type: "int"}}, Expr: "x > 0"}}
+	return m
+}
